@@ -81,6 +81,11 @@ func runC10(r *Run) {
 	// blocked: 0 none, 1 a peer ping whose pong queues behind the blocked
 	// Write, 2 the Write queues behind a Ping that is blocked in the transport
 	conc := t.Weighted(2, 1, 1)
+	// what a cancelled read is blocked in: 0 nothing arrives, 1 only the first
+	// fragment, 2 a data frame with part of its payload, 3 a ping with part of its
+	// payload, 4 writing the pong for a ping (the peer does not read), 5 waiting
+	// for the frame lock to write that pong (a Write is blocked in the transport)
+	rconc := t.Weighted(1, 1, 1, 2, 2, 2)
 
 	sig := fmt.Sprintf("flavour=%v,terminal=%d", pingFlavour, terminal)
 	r.Class = fmt.Sprintf("%s/cli%v/d%v/n%d", sig, rc.Opts.LibClient, rc.Neg.Deflate, nOps/4)
@@ -277,8 +282,14 @@ func runC10(r *Run) {
 			inIO := false
 			time.AfterFunc(termDelay-time.Microsecond, func() {
 				inIO = rc.Lib.InRead() && (termKind == 0 || termKind == 1) || rc.Lib.InWrite() && (termKind == 2 || termKind == 3)
-				if conc == 2 {
+				if conc == 2 && termKind >= 2 {
 					inIO = false // the cancelled Write waits for a lock; the Ping is the one in I/O
+				}
+				if termKind <= 1 && rconc == 4 {
+					inIO = rc.Lib.InWrite() // the read is blocked writing its pong
+				}
+				if termKind <= 1 && rconc == 5 {
+					inIO = false // the read waits for the frame lock
 				}
 			})
 			var err error
@@ -287,13 +298,33 @@ func runC10(r *Run) {
 			case 0, 1:
 				// nothing arrives, or only the first fragment, or a frame header
 				// with a proper prefix of its payload
-				switch conc {
+				switch rconc {
 				case 1:
 					peer.Inject(peer.Encode(wsref.Frame{Fin: false, Opcode: wsref.OpBinary, Payload: []byte("first fragment only")}))
 				case 2:
 					b := peer.Encode(wsref.Frame{Fin: true, Opcode: wsref.OpBinary, Payload: Payload{Kind: 2, Len: 300, Seed: 8}.Bytes()})
 					peer.Inject(b[:len(b)-100])
+				case 3:
+					b := peer.Encode(wsref.Frame{Fin: true, Opcode: wsref.OpPing, Payload: []byte("stalled ping payload")})
+					peer.Inject(b[:len(b)-1-int(termDelay/time.Second)%7])
+				case 4, 5:
+					r.S.ParkE("a.prog.drain", func() bool { return rc.Lib.Out().Buffered() == 0 }, nil)
+					paused = true
+					rc.Lib.Out().Cap = 512
+					rc.Lib.Out().HardCap = true
+					if rconc == 4 {
+						if e := c.Write(bg, websocket.MessageBinary, make([]byte, 40)); e != nil {
+							r.Violate("call-failed-after-harmless-cancel", sig+",filler", "filler write failed: %v", e)
+							return
+						}
+						rc.Lib.Out().Cap = rc.Lib.Out().Buffered()
+					} else {
+						r.S.Go("bgwriter", func() { c.Write(bg, websocket.MessageBinary, Payload{Kind: 2, Len: 40000, Seed: 4}.Bytes()) })
+						r.S.ParkE("a.prog.waitwriter", func() bool { return rc.Lib.InWriteLocked() }, nil)
+					}
+					peer.Inject(peer.Encode(wsref.Frame{Fin: true, Opcode: wsref.OpPing, Payload: []byte("answer me")}))
 				}
+				r.S.Count(fmt.Sprintf("probe.cancel-during-read-blocked%d", rconc))
 				_, _, err = c.Read(ctx)
 			case 2, 3:
 				// let the peer drain what earlier calls wrote, then stop it
@@ -327,6 +358,9 @@ func runC10(r *Run) {
 			}
 			took := r.S.Now() - start
 			s2 := sig + ",op=" + c10Ops[termKind]
+			if termKind <= 1 {
+				s2 += fmt.Sprintf(",blocked=%d", rconc)
+			}
 			if err == nil {
 				r.Violate("blocked-call-survived-cancel", s2, "%s returned nil although its context ended after %v while it was blocked", c10Ops[termKind], termDelay)
 				return
